@@ -218,7 +218,8 @@ func ExtractMatchingLabelSet(groupIDStr string, matchingLabels []string, include
 		return groupIDStr
 	}
 
-	re = regexp.MustCompile(`\s*([\w\s]+):\s*([\w\s]+)`)
+	// label values are arbitrary strings ("host-1", "10.0.0.1"): take everything up to the next ','
+	re = regexp.MustCompile(`\s*([^:,]+):\s*([^,}]*)`)
 
 	matches := re.FindAllStringSubmatch(labelSetStr, -1)
 	for _, match := range matches {
